@@ -1,6 +1,6 @@
 (* C17 property theorems: statements only, each closed by `exact`, with Print Assumptions. *)
 From Coq Require Import ZArith QArith Qabs List Bool PrimFloat.
-From QE Require Import Base.Num C17.Model C17.Proofs C17.Proofs2 C17.Proofs3 C17.Proofs4 C17.Findings.
+From QE Require Import Base.Num C17.Model C17.Proofs C17.Proofs2 C17.Proofs3 C17.Proofs4 C17.Proofs5 C17.Proofs6 C17.Findings.
 Import ListNotations.
 
 (* converged = true iff the stopping criterion fired within maxiter passes; otherwise converged = false is
@@ -101,6 +101,38 @@ Example ex_brent_max :   (* f(x) = -(x-1)^2 on [0,3] with rational stand-ins for
                    0%Q 3%Q (1 # 100000)%Q 500 = BMRes x fv 0 n /\ (3 <= n)%Z.
 Proof. do 3 eexists. vm_compute. split; [reflexivity|discriminate]. Qed.
 
+(* nelder_mead, EVERY arithmetic instance, any objective, any bounds and coefficients: the result is a stored vertex,
+   its reported value is the stored -f there (+inf, i.e. fun = -inf, outside the bounds), success = (nit < max_iter),
+   0 <= nit <= max(max_iter,0), n+1 vertices are returned, and the model never runs out of fuel *)
+Theorem C17_nelder_mead_inv : forall (T : Type) (NX : NumX T) (f : list T -> T) (bounds : list (T * T))
+    (rho chi gam sig nonzdelt zdelt : T) (x0 : list T) (tol_f tol_x : T) (max_iter : Z),
+  let o := nelder_mead f bounds rho chi gam sig nonzdelt zdelt x0 tol_f tol_x max_iter in
+  o <> NMFuel /\
+  forall x nf suc nit_ V, o = NMRes x nf suc nit_ V ->
+    length V = S (length x0) /\ (exists b, (b < S (length x0))%nat /\ x = nth b V []) /\
+    nf = neg_fun f bounds x /\
+    suc = (nit_ <? max_iter)%Z /\ (0 <= nit_ <= Z.max max_iter 0)%Z.
+Proof. exact (@nelder_mead_result). Qed.
+Print Assumptions C17_nelder_mead_inv.
+
+(* over exact rationals, any objective that respects == componentwise, tol_f > 0: the best stored value never gets
+   worse, so the reported -fun is <= -f at every vertex of the initial simplex (+inf for vertices outside the bounds) *)
+Theorem C17_nelder_mead_not_below_initial : forall (f : list Q -> Q) (bounds : list (Q * Q))
+    (rho chi gam sig nonzdelt zdelt : Q),
+  (forall x y, Forall2 Qeq x y -> (f x == f y)%Q) ->
+  forall x0 tol_f tol_x max_iter x nf suc nit_ V, (0 < tol_f)%Q ->
+  nelder_mead f bounds rho chi gam sig nonzdelt zdelt x0 tol_f tol_x max_iter = NMRes x nf suc nit_ V ->
+  forall i, (i <= length x0)%nat ->
+    ext_lt (neg_fun f bounds (nth i (init_simplex nonzdelt zdelt x0) [])) nf = false.
+Proof. exact nelder_mead_not_below_initial. Qed.
+Print Assumptions C17_nelder_mead_not_below_initial.
+
+Example ex_nelder_mead :   (* f(x,y) = -(x-1)^2 - (y+2)^2 from (0,0), no bounds: 30 passes: -f drops from 5 to below 1 *)
+  let f := fun v : list Q => (- ((nth 0 v 0 - 1) * (nth 0 v 0 - 1)) - (nth 1 v 0 + 2) * (nth 1 v 0 + 2))%Q in
+  exists x nf V, nelder_mead f [] 1%Q 2%Q (1 # 2)%Q (1 # 2)%Q (1 # 20)%Q (1 # 4000)%Q [0%Q; 0%Q] (1 # 1000)%Q (1 # 1000)%Q 30
+                 = NMRes x (Fin nf) false 30 V /\ (nf < 1)%Q.
+Proof. cbv zeta. do 3 eexists. vm_compute. split; reflexivity. Qed.
+
 Theorem C17_bisect_product_underflow_refuted :
   PrimFloat.ltb (tiny_f 0) 0 = true /\ PrimFloat.ltb 0 (tiny_f 3) = true /\ PrimFloat.eqb (tiny_f 1) 0 = true /\
   PrimFloat.ltb 0 (tiny_f 2.5) = true /\
@@ -122,3 +154,13 @@ Theorem C17_brentq_zero_division_refuted :
   is_conv_root (brentq tiny_cubic (-6) 9.375 0x1.a36e2eb1c432dp-14 rtol_d 100 true) (-6) 9.375 = true.
 Proof. exact brentq_zero_division_refuted. Qed.
 Print Assumptions C17_brentq_zero_division_refuted.
+
+Theorem C17_nelder_mead_shrink_order_refuted :
+  nm_summary (nelder_mead_old nmw_f nmw_bounds 1 2 0.5 0.5 0x1.999999999999ap-5 0x1.0624dd2f1a9fcp-12 nmw_x0
+                              0x1.b7cdfd9d7bdbbp-34 0x1.b7cdfd9d7bdbbp-34 1000)
+    = Some (nmw_x0, 3.125%float, true, 12%Z) /\
+  match nm_summary (nelder_mead nmw_f nmw_bounds 1 2 0.5 0.5 0x1.999999999999ap-5 0x1.0624dd2f1a9fcp-12 nmw_x0
+                                0x1.b7cdfd9d7bdbbp-34 0x1.b7cdfd9d7bdbbp-34 1000) with
+  | Some (_, v, true, _) => PrimFloat.ltb v 1.625 | _ => false end = true.
+Proof. exact nelder_mead_shrink_order_refuted. Qed.
+Print Assumptions C17_nelder_mead_shrink_order_refuted.
